@@ -41,6 +41,12 @@ func init() {
 	extendProp("C07", "(R7.11) a control plane that refreshes a field of release.Status (the copy its own calculations read) stores the same value into newStatus (the copy that is persisted) on the same paths: otherwise the target computed in this pass and the readiness check of the next pass use different numbers and the batch can oscillate for ever.", r6C07b)
 	extendProp("C14", "(R14.10) in both step machines a step with neither weight nor matches reaches the code of ANY sub-state only after FinalisingTrafficRouting reported done — not just the Init sub-state: steps can be entered directly in TrafficRouting by a jump.", r6C14)
 	extendProp("C14", "(R14.11) buildCanaryIngress copies a path into the canary rule under conditions on that path's backend alone (it is a Service backend and names the stable Service): host, position or anything else about the rule cannot exclude a path of the stable Service.", r6C14b)
+	extendProp("C11", "(R11.12) in every CalculateBatchContext the fields UpdatedReplicas and UpdatedReadyReplicas — the counts readiness is judged on — derive from status fields or pod counts, never from a spec field the controller itself writes.", r6C11)
+	extendProp("C11", "(R11.13) resolveFenceposts (pkg/util, behind DeploymentMaxUnavailable and the wait-until-ready gates of Finalize) scales maxSurge with roundUp=true and maxUnavailable with roundUp=false.", r6C11b)
+	extendProp("C17", "(R17.12) the same for the Deployment controller's own copy (ResolveFenceposts): the availability floor is replicas minus maxUnavailable rounded DOWN.", r6C17c)
+	extendProp("C18", "(R18.11) RestoreStableService reports done without having reached the restore step only when no traffic routing is configured or the stable Service does not exist — never on the strength of a spec flag, which can have changed since the selector was pinned.", r6C18)
+	importProp("C05", "C18", map[string]string{"R18.11": "R5.15"}, "(R5.15 = C18 R18.11) every exit restores the stable Service's selector if it was pinned, whatever the spec says now.")
+	extendProp("C19", "(R19.10) ProgressingRolloutFinalizer builds the finalizer from the whole Rollout name (no truncation, trimming or hashing): distinct Rollouts sharing a TrafficRouting hold distinct finalizers.", r6C19)
 	extendProp("C08", "(R8.10) both admission handlers answer 'this workload is not selected by the webhook configuration' only after every entry and rule was examined (or the entry's selector cannot be parsed): the first entry whose rule matches does not decide alone.", r6C08)
 }
 
@@ -938,4 +944,185 @@ func r6C14b(c *Ctx) {
 		}
 	}
 	c.Ob("R14.11", "buildCanaryIngress#every-stable-path-copied", fn.Pos(), n > 0 && bad == "", "the canary path is appended under conditions on the path's backend only", bad+ifs(n == 0, "append to the canary rule's paths not found"))
+}
+
+// ---------------------------------------------------------------- C11 R11.12
+
+func r6C11(c *Ctx) {
+	p := c.Prog
+	c.Rule("R11.12", "the observed pod counts of a BatchContext are observations (status), not intentions (spec)", 10)
+	var fns []*ssa.Function
+	for _, fn := range p.RepoFuncs() {
+		if fn.Name() == "CalculateBatchContext" && strings.HasPrefix(FuncName(fn), "pkg/controller/batchrelease/control/") {
+			fns = append(fns, fn)
+		}
+	}
+	for _, field := range []string{"UpdatedReplicas", "UpdatedReadyReplicas"} {
+		for _, st := range FieldStores(fns, "context.BatchContext", field) {
+			fromSpec := SliceHas(st.Val, func(t *Term) bool {
+				if t.Op != "field" {
+					return false
+				}
+				_, path := t.FieldPath()
+				for _, x := range path {
+					if x == "Spec" {
+						return true
+					}
+				}
+				return false
+			})
+			c.Ob("R11.12", FuncName(st.Parent())+"#"+field, st.Pos(), !fromSpec, "BatchContext."+field+" is read from the workload's status (or counted from pods)",
+				ifs(fromSpec, "the value derives from the workload's spec ("+TermOf(st.Val).String()+"): the controller itself sets that field to the batch target, so 'enough updated pods' holds by construction and the batch is reported Ready although the pods may not exist"))
+		}
+	}
+}
+
+// ---------------------------------------------------------------- C11 R11.13 (= C17 R17.12)
+
+func r6C11b(c *Ctx) {
+	c.Rule("R11.13", "the fencepost arithmetic behind DeploymentMaxUnavailable rounds maxSurge up and maxUnavailable down", 2)
+	fencepostRounding(c, "R11.13", "pkg/util.resolveFenceposts")
+}
+
+func r6C17c(c *Ctx) {
+	c.Rule("R17.12", "the Deployment controller's fencepost arithmetic rounds maxSurge up and maxUnavailable down", 2)
+	fencepostRounding(c, "R17.12", "pkg/controller/deployment/util.ResolveFenceposts")
+}
+
+func fencepostRounding(c *Ctx, rule string, names ...string) {
+	p := c.Prog
+	for _, name := range names {
+		fn := p.Func(name)
+		if fn == nil || len(fn.Params) < 2 {
+			c.Unresolved(rule, name)
+			continue
+		}
+		found := map[int]bool{}
+		for _, ci := range AllCalls(fn) {
+			if !strings.HasSuffix(CalleeName(ci.Common()), "GetScaledValueFromIntOrPercent") || len(ci.Common().Args) != 3 {
+				continue
+			}
+			for pi, want := range map[int]string{0: "true", 1: "false"} {
+				if !BackwardSlice(ci.Common().Args[0])[fn.Params[pi]] {
+					continue
+				}
+				found[pi] = true
+				k, isC := ci.Common().Args[2].(*ssa.Const)
+				ok := isC && constText(k) == want
+				c.Ob(rule, shortName(name)+"#round("+fn.Params[pi].Name()+")", ci.Pos(), ok, map[int]string{0: "a percentage maxSurge is rounded up", 1: "a percentage maxUnavailable is rounded down"}[pi],
+					ifs(!ok, map[int]string{0: "maxSurge is not rounded up: a small Deployment with a percentage surge gets no surge at all and, with maxUnavailable 0, cannot progress", 1: "maxUnavailable is not rounded down: the tolerance used by the 'all pods updated and ready' gates is one pod larger than what the Deployment allows, so Completed is reported (and the rolling update proceeds) with more pods unavailable than permitted"}[pi]))
+			}
+		}
+		for pi := 0; pi < 2; pi++ {
+			if !found[pi] {
+				c.Ob(rule, shortName(name)+"#round("+fn.Params[pi].Name()+")", fn.Pos(), false, "scaling of the bound", "anchor not found")
+			}
+		}
+	}
+}
+
+// ---------------------------------------------------------------- C18 R18.11 (= C05 R5.15)
+
+func r6C18(c *Ctx) {
+	p := c.Prog
+	c.Rule("R18.11", "RestoreStableService answers 'nothing to restore' without looking at the Service only when there is no Service", 1)
+	fn := p.Func("pkg/trafficrouting.Manager.RestoreStableService")
+	if fn == nil {
+		c.Unresolved("R18.11", "trafficrouting.Manager.RestoreStableService")
+		return
+	}
+	isWrite := apiWrites(p)
+	isRestore := func(in ssa.Instruction) bool {
+		if isWrite(in) {
+			return true
+		}
+		if ci, ok := in.(ssa.CallInstruction); ok && strings.Contains(CalleeName(ci.Common()), "grace.RunWithGraceSeconds") {
+			return true
+		}
+		return false
+	}
+	nothing := FOr(
+		FCmp("==", MLen(MField("ObjectRef")), MConst("0")),
+		FTrue(MCall("errors.IsNotFound")),
+	)
+	n := 0
+	seen := map[*ssa.Return]bool{}
+	for _, r := range WalkCP(Entry(fn), nil, IsReturn, ReachOpts{CutInstr: isRestore, CutEdge: func(b *ssa.BasicBlock, k int) bool {
+		return EdgeFactMatches(b, k, nothing)
+	}}) {
+		ret := r.Instr.(*ssa.Return)
+		if ret.Block() == fn.Recover || len(ret.Results) < 2 || seen[ret] {
+			continue
+		}
+		if v, ok := ResolveConst(ret.Results[1], r.Env); !ok || v != "nil" {
+			continue
+		}
+		if v, ok := ResolveConst(ret.Results[0], r.Env); ok && v == "true" {
+			continue
+		}
+		seen[ret] = true
+		n++
+		c.Ob("R18.11", "RestoreStableService#done-without-looking", ret.Pos(), false, "done answered before the restore step",
+			"this return answers (done, no error) although the stable Service's selector was neither examined nor restored and the Service may exist: a flag of the CURRENT spec is no evidence that the selector was never pinned (the spec is not frozen during a release), so the teardown can drop the finalizer with the Service still selecting only the old revision").WithFacts(FactsAtInstr(ret))
+	}
+	if n == 0 {
+		c.Ob("R18.11", "RestoreStableService#done-without-looking", fn.Pos(), true, "every done answer before the restore step is for 'no traffic routing configured' or 'Service not found'", "")
+	}
+}
+
+// ---------------------------------------------------------------- C19 R19.10
+
+func r6C19(c *Ctx) {
+	p := c.Prog
+	c.Rule("R19.10", "the per-Rollout finalizer on a shared TrafficRouting contains the Rollout's whole name", 1)
+	fn := p.Func("pkg/util.ProgressingRolloutFinalizer")
+	if fn == nil || len(fn.Params) != 1 {
+		c.Unresolved("R19.10", "util.ProgressingRolloutFinalizer(name)")
+		return
+	}
+	name := fn.Params[0]
+	n := 0
+	bad := ""
+	// every value derived from the parameter that is formatted / concatenated into the result is the
+	// parameter itself
+	check := func(v ssa.Value, at *ssa.BasicBlock, pos token.Pos) {
+		if !BackwardSlice(v)[name] {
+			return
+		}
+		n++
+		for _, lf := range Leaves(Forwarded(v), at) {
+			x := lf.V
+			if mi, ok := x.(*ssa.MakeInterface); ok {
+				x = Forwarded(mi.X)
+				for _, lf2 := range Leaves(x, at) {
+					if lf2.V != ssa.Value(name) {
+						bad = "the name is shortened or rewritten before it goes into the finalizer (" + TermOf(lf2.V).String() + ", " + p.Pos(pos) + ")"
+					}
+				}
+				continue
+			}
+			if x != ssa.Value(name) {
+				bad = "the name is shortened or rewritten before it goes into the finalizer (" + TermOf(x).String() + ", " + p.Pos(pos) + ")"
+			}
+		}
+	}
+	for _, b := range fn.Blocks {
+		for _, in := range b.Instrs {
+			switch x := in.(type) {
+			case *ssa.Store:
+				if ia, ok := x.Addr.(*ssa.IndexAddr); ok { // element of the variadic argument list
+					if _, isAlloc := ia.X.(*ssa.Alloc); isAlloc {
+						check(x.Val, b, x.Pos())
+					}
+				}
+			case *ssa.BinOp:
+				if x.Op == token.ADD {
+					check(x.X, b, x.Pos())
+					check(x.Y, b, x.Pos())
+				}
+			}
+		}
+	}
+	c.Ob("R19.10", "ProgressingRolloutFinalizer#whole-name", fn.Pos(), n > 0 && bad == "", "the finalizer is the prefix plus the unmodified Rollout name, so two Rollouts never share one",
+		ifs(bad != "", bad+": two Rollouts whose names differ only in the part that is dropped share one finalizer on a TrafficRouting they both use — when the first finishes it removes the finalizer and the routes are restored under the second")+ifs(n == 0, "the name does not reach the result"))
 }
